@@ -220,3 +220,97 @@ func SetStepPolicy(c *core.Ctx) {
 		return true
 	}
 }
+
+// anchorCalls finds the calls of ids in fn. When fn has none, a call of a
+// private helper with all its call sites in one function (the step policy) that
+// may perform such a call stands in for it: an extract-function refactor moved
+// the anchor, the helper's call site is where it now happens. Rules that gate,
+// order or pair by the identity of the anchor instruction work unchanged on
+// the stand-in; its error result is the helper's.
+func anchorCalls(fn *ssa.Function, ids ...string) []ssa.CallInstruction {
+	direct := an.CallsTo(fn, false, ids...)
+	if len(direct) > 0 || an.StepPolicy == nil {
+		return direct
+	}
+	var out []ssa.CallInstruction
+	for _, call := range an.AllCalls(fn, false) {
+		if _, isGo := call.(*ssa.Go); isGo {
+			continue
+		}
+		g := call.Common().StaticCallee()
+		if g == nil || g == fn || len(g.Blocks) == 0 || !an.StepPolicy(g) {
+			continue
+		}
+		if an.MayDo(g, func(in ssa.Instruction) bool { return an.IsCall(in, ids...) }, 2, core.InModule) {
+			out = append(out, call)
+		}
+	}
+	return out
+}
+
+// hostOf returns fn when has(fn) holds, otherwise the private helper (step
+// policy, called from fn, up to two levels) for which it holds — the function
+// that now hosts a block moved out of fn — or nil.
+func hostOf(fn *ssa.Function, has func(*ssa.Function) bool) *ssa.Function {
+	if fn == nil || has(fn) {
+		return fn
+	}
+	if an.StepPolicy == nil {
+		return nil
+	}
+	seen := map[*ssa.Function]bool{fn: true}
+	level := []*ssa.Function{fn}
+	for depth := 0; depth < 2; depth++ {
+		var next []*ssa.Function
+		for _, f := range level {
+			for _, call := range an.AllCalls(f, true) {
+				g := call.Common().StaticCallee()
+				if g == nil || seen[g] || len(g.Blocks) == 0 || !an.StepPolicy(g) {
+					continue
+				}
+				seen[g] = true
+				if has(g) {
+					return g
+				}
+				next = append(next, g)
+			}
+		}
+		level = next
+	}
+	return nil
+}
+
+// successImplies: every successful return of the private helper h lies behind
+// the nil edge of a call of one of ids made in h — "h succeeded" implies "that
+// call succeeded".
+func successImplies(h *ssa.Function, ids ...string) bool {
+	if h == nil || len(h.Blocks) == 0 || an.StepPolicy == nil || !an.StepPolicy(h) {
+		return false
+	}
+	edges := map[an.Edge]bool{}
+	for _, call := range an.CallsTo(h, false, ids...) {
+		for e := range an.SenseEdges(h, an.ErrResult(call), an.IsNil) {
+			edges[e] = true
+		}
+	}
+	if len(edges) == 0 {
+		return false
+	}
+	succ := an.SuccessReturns(h)
+	if len(succ) == 0 {
+		return false
+	}
+	for _, r := range succ {
+		ret := r
+		// `return inner()` hands the inner call's verdict on
+		if v := ret.Results[len(ret.Results)-1]; len(ret.Results) > 0 {
+			if call, ok := v.(*ssa.Call); ok && an.IsCall(call, ids...) {
+				continue
+			}
+		}
+		if len(an.Ungated(an.CutSpec{Fn: h, GateEdge: edges, NoLift: true, Sink: func(in ssa.Instruction) bool { return in == ssa.Instruction(ret) }})) > 0 {
+			return false
+		}
+	}
+	return true
+}
